@@ -9,6 +9,7 @@ func init() {
 	rangeShapes = append(rangeShapes, scopingShapes...)
 	delegationShapes = append(delegationShapes, delegationShapes7...)
 	panicShapes = append(panicShapes, panicShapes7...)
+	optimiserBait = append(optimiserBait, optimiserBait7...)
 	bystanderShapes = append(bystanderShapes, bystanderShapes7...)
 	injections = append(injections, injections7...)
 	closureInGeneratorShapes = append(closureInGeneratorShapes, closureInGeneratorShapes7...)
@@ -288,6 +289,52 @@ func $NDrainBoth(x, y $ITER{int}) (res int) {
 
 func $ND(a int) int { return $NDrainBoth($NG(a), $NG(a+1)) }
 `, entries: []*Entry{callEntry("$NC", 1, nil), callEntry("$ND", 1, nil)}},
+	// the range expression is evaluated ONCE, also when it is a field path and the body changes what the path denotes
+	{name: "range-over-a-field-path-the-body-reassigns", decls: baseGen + `
+type $NHolder struct {
+	it   $ITER{int}
+	next *$NHolder
+}
+
+var $NGlobal $ITER{int}
+
+func $NC(a int) (res int) {
+	h := &$NHolder{it: $NG(a)}
+	n := 0
+	for v := range $RANGE{h.it} {
+		res = res*3 + v
+		if n++; n == 2 {
+			h.it = $NG(a + 10)
+		}
+	}
+	node := &$NHolder{it: $NG(a), next: &$NHolder{it: $NG(a + 20)}}
+	for v := range $RANGE{node.it} {
+		res = res*3 + v%7
+		node = node.next
+		if node == nil {
+			break
+		}
+	}
+	$NGlobal = $NG(1)
+	for v := range $RANGE{$NGlobal} {
+		res += v
+		$NGlobal = $NG(5)
+	}
+	return
+}
+
+$GEN{$NW(a int)}{int}{
+	h := &$NHolder{it: $NG(a)}
+	n := 0
+	for v := range $RANGE{h.it} {
+		$YIELD{v}
+		if n++; n == 1 {
+			h.it = $NG(a + 10)
+		}
+	}
+	$YFROM{h.it}
+	$RET
+}`, entries: []*Entry{callEntry("$NC", 1, nil), drive("$NW", "int", 1, nil)}},
 	{name: "method-generator-on-generic-type", decls: `
 type $NBox[T any] struct {
 	xs  []T
@@ -778,6 +825,39 @@ $GEN{$NG(a int)}{int}{
 	$YIELD{int(gi) + int(i8) + r + int(u) + int(d) + lv.Int()}
 	$RET
 }`, entries: []*Entry{drive("$NG", "int", 1, [][]int{{0}, {1}})}},
+	// a bound that is the LARGEST value of a narrow integer type: the loop runs 0..n-1 and ends (a counter that has to run one past
+	// the bound wraps around instead)
+	{name: "integer-range-up-to-the-largest-value-of-a-narrow-type", decls: `
+type $NLevel uint8
+
+$GEN{$NG(a int)}{int}{
+	var top uint8 = 255
+	cnt := 0
+	for i := range top {
+		cnt++
+		if i < 2 || i > 252 {
+			$YIELD{int(i)}
+		}
+	}
+	$YIELD{cnt}
+	cnt = 0
+	for i := range int8(127) {
+		cnt += int(i) % 3
+	}
+	$YIELD{cnt}
+	var lvl $NLevel
+	cnt = 0
+	for lvl = range 255 {
+		cnt++
+	}
+	$YIELD{cnt*1000 + int(lvl)}
+	cnt = 0
+	for range uint16(65535) {
+		cnt++
+	}
+	$YIELD{cnt + a}
+	$RET
+}`, entries: []*Entry{{Name: "$NG", Kind: "drive", Call: "$P$NG($0)", Elem: "int", Inputs: [][]int{{0}}, Scripts: []string{"std"}, Fuel: 100000}}},
 	{name: "range-over-rows-of-unaddressable-arrays", decls: `
 func $NBoard(a int) [2][3]int { return [2][3]int{{a, 1, 2}, {3, 4, a}} }
 
@@ -998,6 +1078,11 @@ func $NB(a int) (res int) {
 const seqFuncDecl = "func $NSeq(n int) func(func(int) bool) {\n\treturn func(y func(int) bool) {\n\t\tfor i := 0; i < n; i++ {\n\t\t\tif !y(i) {\n\t\t\t\treturn\n\t\t\t}\n\t\t}\n\t}\n}"
 
 var injections7 = []injection{
+	// range over a NIL pointer to an array with at most one iteration variable: Go does not evaluate *p (len is constant) and
+	// produces 0..N-1; rejected today (yield in a range that stays native) - whoever starts accepting it has to keep that
+	{name: "range-over-nil-pointer-to-array-key-only", stmt: "var np *[3]int\n\tfor i := range np {\n\t\t$YIELD{i * 10}\n\t}"},
+	{name: "range-over-nil-pointer-to-array-no-variables", stmt: "var np *[2]int\n\tn := 0\n\tfor range np {\n\t\tn++\n\t\t$YIELD{n}\n\t}"},
+	{name: "range-over-nil-pointer-to-array-key-only-trivial", stmt: "var np *[3]int\n\tfor i := range np {\n\t\ttr.Ev(1, i)\n\t}"},
 	// defer in positions where NO yield follows it in the source text but more of the generator runs after it at run time
 	// (the next iteration, the code after the enclosing if/switch): in the bare host nothing follows the injected statement
 	{name: "defer-at-end-of-yielding-loop-body", stmt: "for i := 0; i < 2; i++ {\n\t\t$YIELD{i}\n\t\tdefer tr.Ev(1, i)\n\t}"},
@@ -1015,6 +1100,34 @@ var injections7 = []injection{
 // ---- closures in generators / conditions (C13, C11, C01) ---------------------------------------------
 
 var closureInGeneratorShapes7 = []shape{
+	// closures over the methods of an iterator variable inside a generator; the variable is re-assigned afterwards
+	{name: "closures-over-methods-of-a-reassigned-iterator-variable-in-a-generator", decls: `
+$GEN{$NSrc(a int)}{int}{
+	for i := 0; i < 3; i++ {
+		tr.Ev(900, a, i)
+		$YIELD{a + i}
+	}
+	$RET
+}
+
+$GEN{$NChain(a int)}{int}{
+	it := $NSrc(a)
+	more := func() bool { return it.MoveNext() }
+	for more() {
+		$YIELD{it.Current()}
+	}
+	it = $NSrc(a + 10)
+	for more() {
+		$YIELD{it.Current()}
+	}
+	var late $ITER{int}
+	peek := func() bool { return late.MoveNext() }
+	late = $NSrc(a + 20)
+	if peek() {
+		$YIELD{late.Current()}
+	}
+	$RET
+}`, entries: []*Entry{drive("$NChain", "int", 1, [][]int{{0}, {2}})}},
 	// unreachable statements after break / continue still count as uses of the variables they mention (go vet flags them,
 	// the compiler accepts them): dropping them must not leave a variable unused
 	{name: "dead-code-after-break-and-continue-is-the-only-use-of-a-variable", decls: `
@@ -1227,4 +1340,61 @@ $GEN{$NG(a int)}{int}{
 	$YIELD{200}
 	$RET
 }`, entries: []*Entry{drive("$NG", "int", 1, nil)}},
+}
+
+// ---- optimiser bait (C02, C07, C03) ----------------------------------------------------------------
+
+var optimiserBait7 = []shape{
+	// a yield of a composite literal whose elements are all constants is the sole statement of a repeated block: the literal
+	// still has to be evaluated once per run of the block - a pointer, slice or map literal is a NEW object each time, which a
+	// consumer that keeps or mutates what it receives can tell
+	{name: "yield-of-constant-only-reference-literals-in-a-repeated-block", tags: []string{"eta-shape"}, decls: `
+type $NRow struct{ n int }
+
+$GEN{$NRows()}{*$NRow}{
+	for {
+		$YIELD{&$NRow{}}
+	}
+}
+
+$GEN{$NSlices(k int)}{[]int}{
+	for i := 0; i < k; i++ {
+		$YIELD{[]int{0, 0}}
+	}
+	$RET
+}
+
+$GEN{$NMaps(k int)}{map[string]int}{
+	for k > 0 {
+		k--
+		$YIELD{map[string]int{"hits": 0}}
+	}
+	$RET
+}
+
+func $NC(a int) (res int) {
+	n := 0
+	var first *$NRow
+	for r := range $RANGE{$NRows()} {
+		if first == nil {
+			first = r
+		} else if r == first {
+			res += 100000
+		}
+		r.n += a + 1
+		res = res*10 + r.n%10
+		if n++; n == 3 {
+			break
+		}
+	}
+	for sl := range $RANGE{$NSlices(3)} {
+		sl[0]++
+		res = res*10 + sl[0]
+	}
+	for m := range $RANGE{$NMaps(3)} {
+		m["hits"]++
+		res = res*10 + m["hits"]
+	}
+	return
+}`, entries: []*Entry{callEntry("$NC", 1, nil)}},
 }
